@@ -6,6 +6,12 @@ ALL = ["C%02d" % i for i in range(1, 21)]
 
 # property -> (technique, decided clauses (short), not decided / assumptions)
 CLAIMED = {
+ "C08": ("ordering analysis of the close protocol: dominance chains, exactly-once release by path search, constant tables, loop-shape matching (go/ssa)",
+         "C08.1 closeLocked: CAS -> delete -> notify -> wait handlers -> wait calls -> ActiveClosed -> socket.Close -> hook as one dominance chain; C08.2 handler wait-group Add before dispatch, exactly one release on the dispatched / Go()-failed paths, Push pairing, getContext/putContext count iff withWg; C08.3 goonRead = {Ok,ActiveClosing}, checkStatus membership, graceCtxWait; C08.4 peer.Close: listeners first, one counted async Close per session, exactly count results awaited",
+         "'returns only after' as a timing statement; handlers entered after the wait returned (Add concurrent with Wait at zero is C14.5); the peer's behaviour"),
+ "C16": ("order-of-establishment analysis: dominance of hook-success edges, gate predicates, who-may-call/value-escape analysis, return-value provenance (go/ssa)",
+         "C16.1 the read loop starts only on the hook-success edge at the four establishment sites and nowhere else; C16.2 Pre* session I/O only on the statusPreparing edge; C16.3 binding (per-message entry) installed only on pooled contexts, never called directly, socket readers are the read loop and PreReceive; C16.4 PostAccept returns nil only without checker, else the checker's status or the send failure; PostDial returns the bearer's status; C16.5 once-closures: per-invocation flag, CAS, misuse status, I/O only after success (with C07.3/C07.6/C07.11 and C09.1 for hook order/veto)",
+         "bytes a client pipelines behind the auth frame stay buffered in the socket reader and are processed after a successful exchange (run-time question); user checker functions; RawPush is not gated (documented for hook use)"),
  "C03": ("dispatch / exactly-once analysis: who-may-call, exhaustive constant-dispatch by value tracking, dominance on OK edges, must-pass-through for the reply, static reachability (go/ssa)",
          "C03.1 handle() has one caller, once per message; C03.2 handle()/binding() dispatch exactly {Call,Reply,Push}, everything else disconnects / is marked not-allowed; C03.3 handler at most once and only on the OK edges of c.stat and of the body hook, handler fields read nowhere else; C03.4 writeReply on every normal path, second write only after a failed first, written flag only after success; C03.5 panic path: recover, 500 copy, reply iff nothing written; C03.6 reply seq/type from the request; C03.7 push paths cannot reach a write; C03.8 every nil return of bindCall leaves a non-OK status; C03.9 read-error classification in the read loop",
          "behaviour of handler programs and plugins; concurrent arrivals are covered only through the single-reader/once-per-iteration structure (C01.5, C03.1); Go() pool exhaustion drops a CALL without reply (documented load shedding, see DESIGN section 4)"),
